@@ -1,4 +1,7 @@
-(** Proofs about the accept-loop machine (C20). *)
+(** Proofs about the accept-loop machine (C20, and the response-buffer part of C19).
+    The HISTORIC part (everything about [step_before_fix]) is about control flow only:
+    that loop leaves [rbuf] / [wire] alone, its lemmas are stated for the (only
+    reachable) empty buffer and empty wire. *)
 From SV Require Import Exporter.AcceptCases.
 
 Local Open Scope nat_scope.
@@ -94,11 +97,11 @@ Fixpoint read_loop (rs : list rd) (buf : list Z) : rres :=
       else read_loop rest buf'
   end.
 
-Definition rd_cfg rs h w buf p lg := mkCfg (Reading rs h w buf) p lg.
+Definition rd_cfg rs h w buf p lg := mkCfg (Reading rs h w buf) p lg [] [].
 
 Definition after_found (b : list Z) (h : hres) (w : wres) p lg : cfg :=
-  if starts_get b then mkCfg (Responding (status_of h) w) p lg
-  else mkCfg Accepting p (lg ++ [ODropped]).
+  if starts_get b then mkCfg (Responding (status_of h) w) p lg [] []
+  else mkCfg Accepting p (lg ++ [ODropped]) [] [].
 
 Lemma do_read_space rs buf :
   length buf < BUFn ->
@@ -159,7 +162,7 @@ Lemma read_small rs : forall buf h w p lg,
                 /\ has_term b = true
   | RStuck rs' b => reaches step_before_fix (length rs) (rd_cfg rs h w buf p lg) (rd_cfg rs' h w b p lg)
                     /\ stuck_ok rs' b
-  | RFail => reaches step_before_fix (length rs) (rd_cfg rs h w buf p lg) (mkCfg Exited p lg)
+  | RFail => reaches step_before_fix (length rs) (rd_cfg rs h w buf p lg) (mkCfg Exited p lg [] [])
   end.
 Proof.
   induction rs as [| r rest IH]; intros buf h w p lg Ht Hl.
@@ -257,7 +260,7 @@ Qed.
 Lemma BUFn_pos : 0 < BUFn.
 Proof. unfold BUFn. lia. Qed.
 
-Definition acc_cfg (p : list item) (lg : list cout) : cfg := mkCfg Accepting p lg.
+Definition acc_cfg (p : list item) (lg : list cout) : cfg := mkCfg Accepting p lg [] [].
 
 Lemma accept_step c p lg :
   step_before_fix (acc_cfg (Conn c :: p) lg) = rd_cfg (c_reads c) (c_hnd c) (c_wr c) [] p lg.
@@ -287,7 +290,7 @@ Qed.
 
 Definition is_fix (T : cfg) : Prop := step_before_fix T = T.
 
-Lemma exited_fix p lg : is_fix (mkCfg Exited p lg).
+Lemma exited_fix p lg : is_fix (mkCfg Exited p lg [] []).
 Proof. reflexivity. Qed.
 
 Lemma idle_fix lg : is_fix (acc_cfg [] lg).
@@ -298,10 +301,10 @@ Lemma conn_as_is c p lg :
   let n := length (c_reads c) in
   match kind_of c with
   | KGet => reaches step_before_fix (1 + n) (acc_cfg (Conn c :: p) lg)
-                    (mkCfg (Responding (status_of (c_hnd c)) WOk) p lg)
+                    (mkCfg (Responding (status_of (c_hnd c)) WOk) p lg [] [])
   | KNonGet => reaches step_before_fix (1 + n) (acc_cfg (Conn c :: p) lg) (acc_cfg p (lg ++ [ODropped]))
-  | KGetRst => reaches step_before_fix (2 + n) (acc_cfg (Conn c :: p) lg) (mkCfg Exited p lg)
-  | KReset => reaches step_before_fix (1 + n) (acc_cfg (Conn c :: p) lg) (mkCfg Exited p lg)
+  | KGetRst => reaches step_before_fix (2 + n) (acc_cfg (Conn c :: p) lg) (mkCfg Exited p lg [] [])
+  | KReset => reaches step_before_fix (1 + n) (acc_cfg (Conn c :: p) lg) (mkCfg Exited p lg [] [])
   | KEof | KOversize =>
       exists rs' b, reaches step_before_fix (1 + n) (acc_cfg (Conn c :: p) lg)
                             (rd_cfg rs' (c_hnd c) (c_wr c) b p lg)
@@ -350,7 +353,7 @@ Theorem eof_spins : forall n h w g rest,
   iter (S n) step_before_fix (init (Conn (mkConn [REof] h w g) :: rest))
   = rd_cfg [REof] h w [] rest [].
 Proof.
-  intros. cbn [iter]. unfold init. change (mkCfg Accepting ?p ?l) with (acc_cfg p l).
+  intros. cbn [iter]. unfold init. change (mkCfg Accepting ?p ?l [] []) with (acc_cfg p l).
   rewrite accept_step. cbn [c_reads c_hnd c_wr]. apply eof_spins_state. reflexivity.
 Qed.
 
@@ -387,10 +390,10 @@ Qed.
 (** Reset: [?] on the read error (or on the write error) leaves [main]. *)
 Theorem reset_exits_state : forall n rs h w buf p lg,
   length buf < BUFn ->
-  iter (S n) step_before_fix (rd_cfg (RErr :: rs) h w buf p lg) = mkCfg Exited p lg.
+  iter (S n) step_before_fix (rd_cfg (RErr :: rs) h w buf p lg) = mkCfg Exited p lg [] [].
 Proof.
   intros. cbn [iter].
-  assert (E : step_before_fix (rd_cfg (RErr :: rs) h w buf p lg) = mkCfg Exited p lg).
+  assert (E : step_before_fix (rd_cfg (RErr :: rs) h w buf p lg) = mkCfg Exited p lg [] []).
   { unfold step_before_fix, rd_cfg; cbn [st pending log]. rewrite do_read_space by assumption. reflexivity. }
   rewrite E. apply iter_fix. reflexivity.
 Qed.
@@ -398,7 +401,7 @@ Qed.
 Theorem reset_exits : forall c p lg,
   kind_of c = KReset \/ kind_of c = KGetRst ->
   forall n, 2 + length (c_reads c) <= n ->
-    iter n step_before_fix (acc_cfg (Conn c :: p) lg) = mkCfg Exited p lg.
+    iter n step_before_fix (acc_cfg (Conn c :: p) lg) = mkCfg Exited p lg [] [].
 Proof.
   intros c p lg K n Hn. pose proof (conn_as_is c p lg) as H. cbn zeta in H.
   destruct K as [K | K]; rewrite K in H.
@@ -408,13 +411,13 @@ Proof.
 Qed.
 
 Theorem write_error_exits : forall n s p lg,
-  iter (S n) step_before_fix (mkCfg (Responding s WErr) p lg) = mkCfg Exited p lg.
-Proof. intros. cbn [iter]. change (step_before_fix (mkCfg (Responding s WErr) p lg)) with (mkCfg Exited p lg).
+  iter (S n) step_before_fix (mkCfg (Responding s WErr) p lg [] []) = mkCfg Exited p lg [] [].
+Proof. intros. cbn [iter]. change (step_before_fix (mkCfg (Responding s WErr) p lg [] [])) with (mkCfg Exited p lg [] []).
   apply iter_fix. reflexivity. Qed.
 
 Theorem accept_error_exits : forall n p lg,
-  iter (S n) step_before_fix (acc_cfg (AcceptErr :: p) lg) = mkCfg Exited p lg.
-Proof. intros. cbn [iter]. change (step_before_fix (acc_cfg (AcceptErr :: p) lg)) with (mkCfg Exited p lg).
+  iter (S n) step_before_fix (acc_cfg (AcceptErr :: p) lg) = mkCfg Exited p lg [] [].
+Proof. intros. cbn [iter]. change (step_before_fix (acc_cfg (AcceptErr :: p) lg)) with (mkCfg Exited p lg [] []).
   apply iter_fix. reflexivity. Qed.
 
 (** * Lists of connections *)
@@ -479,7 +482,7 @@ Theorem serves_next_before_fix : forall pre last,
   let items := pre ++ [Conn last] in
   (exists n, n <= bound items /\
      iter n step_before_fix (init items)
-     = mkCfg (Responding (status_of (c_hnd last)) WOk) [] (map expected_item pre))
+     = mkCfg (Responding (status_of (c_hnd last)) WOk) [] (map expected_item pre) [] [])
   /\ (forall m, st (iter m step_before_fix (init items)) <> Exited)
   /\ run_with step_before_fix items
      = (map expected_item pre ++ [OStatus (status_of (c_hnd last))], FIdle).
@@ -489,7 +492,7 @@ Proof.
   pose proof (benign_run pre [Conn last] [] B) as R1. cbn [app] in R1.
   pose proof (conn_as_is last [] (map expected_item pre)) as R2. cbn zeta in R2. rewrite K in R2.
   assert (R : reaches step_before_fix (bound pre + (1 + length (c_reads last))) (init items)
-               (mkCfg (Responding (status_of (c_hnd last)) WOk) [] (map expected_item pre))).
+               (mkCfg (Responding (status_of (c_hnd last)) WOk) [] (map expected_item pre) [] [])).
   { eapply reaches_trans; [exact R1 | exact R2]. }
   assert (Hb : bound items = bound pre + (2 + length (c_reads last))).
   { unfold items. rewrite bound_app. cbn [bound item_cost]. lia. }
@@ -519,7 +522,7 @@ Lemma benign_all_run items :
   run_with step_before_fix items = (map expected_item items, FIdle).
 Proof.
   intros B. pose proof (benign_run items [] [] B) as R. rewrite app_nil_r in R. cbn [app] in R.
-  unfold run_with. unfold init. change (mkCfg Accepting items []) with (acc_cfg items []).
+  unfold run_with. unfold init. change (mkCfg Accepting items [] [] []) with (acc_cfg items []).
   rewrite (reaches_fix step_before_fix _ _ _ R (idle_fix _) _ (le_n _)).
   unfold acc_cfg, final_of, pad_log; cbn [st pending log].
   rewrite map_length. replace (length items - length items) with 0 by lia. cbn [repeat].
@@ -547,12 +550,12 @@ Lemma bad_conn_wedges c p lg :
 Proof.
   unfold benign_conn. intros B. pose proof (conn_as_is c p lg) as H. cbn zeta in H. cbn [item_cost].
   destruct (kind_of c); try discriminate.
-  - exists (mkCfg Exited p lg). repeat split; auto.
+  - exists (mkCfg Exited p lg [] []). repeat split; auto.
   - destruct H as (rs' & b & R & F). exists (rd_cfg rs' (c_hnd c) (c_wr c) b p lg).
     repeat split; auto. eapply reaches_weaken; [| exact R]. lia.
   - destruct H as (rs' & b & R & F). exists (rd_cfg rs' (c_hnd c) (c_wr c) b p lg).
     repeat split; auto. eapply reaches_weaken; [| exact R]. lia.
-  - exists (mkCfg Exited p lg). repeat split; auto. eapply reaches_weaken; [| exact H]. lia.
+  - exists (mkCfg Exited p lg [] []). repeat split; auto. eapply reaches_weaken; [| exact H]. lia.
 Qed.
 
 Lemma bad_run pre c post :
@@ -662,33 +665,47 @@ Proof.
 Qed.
 
 (** * ===================================================================
-    * THE REPAIRED LOOP [step_fixed]: unrestricted [serves_next]
+    * THE CODE AS IT IS [step_fixed]: unrestricted [serves_next], and what
+    * reaches the clients (the response buffer lives across requests)
     * =================================================================== *)
 
-Lemma accept_step_fixed c p lg :
-  step_fixed (acc_cfg (Conn c :: p) lg) = rd_cfg (c_reads c) (c_hnd c) (c_wr c) [] p lg.
+Definition accB (p : list item) (lg : list cout) (rb : list Z) (wr : list (list Z)) : cfg :=
+  mkCfg Accepting p lg rb wr.
+Definition rdB rs h w buf (p : list item) (lg : list cout) (rb : list Z) (wr : list (list Z)) : cfg :=
+  mkCfg (Reading rs h w buf) p lg rb wr.
+
+(** After the header terminator: a GET calls the handler on the CLEARED buffer
+    (the buffer then holds exactly what this handler call appended); anything
+    else drops the connection and leaves the buffer alone. *)
+Definition after_foundB (b : list Z) (h : hres) (w : wres) p lg rb wr : cfg :=
+  if starts_get b then mkCfg (Responding (status_of h) w) p lg (hnd_out h) wr
+  else accB p (lg ++ [ODropped]) rb wr.
+
+Lemma accept_step_fixed c p lg rb wr :
+  step_fixed (accB (Conn c :: p) lg rb wr) = rdB (c_reads c) (c_hnd c) (c_wr c) [] p lg rb wr.
 Proof. reflexivity. Qed.
 
-Lemma read_small_fixed rs : forall buf h w p lg,
+Lemma read_small_fixed rs : forall buf h w p lg rb wr,
   has_term buf = false -> length buf < BUFn ->
   match read_loop rs buf with
-  | RFound b => reaches step_fixed (length rs) (rd_cfg rs h w buf p lg) (after_found b h w p lg)
+  | RFound b => reaches step_fixed (length rs) (rdB rs h w buf p lg rb wr) (after_foundB b h w p lg rb wr)
                 /\ has_term b = true
-  | _ => reaches step_fixed (S (length rs)) (rd_cfg rs h w buf p lg) (acc_cfg p (lg ++ [ODropped]))
+  | _ => reaches step_fixed (S (length rs)) (rdB rs h w buf p lg rb wr) (accB p (lg ++ [ODropped]) rb wr)
   end.
 Proof.
-  induction rs as [| r rest IH]; intros buf h w p lg Ht Hl.
+  induction rs as [| r rest IH]; intros buf h w p lg rb wr Ht Hl.
   - cbn [read_loop]. apply reaches_step. cbn. apply reaches_refl.
   - destruct r as [b bs | |].
     + cbn [read_loop length].
       set (n := BUFn - length buf).
       set (buf' := buf ++ firstn n (b :: bs)).
-      assert (Hstep : step_fixed (rd_cfg (RChunk b bs :: rest) h w buf p lg) =
-                if has_term buf' then after_found buf' h w p lg
-                else if BUFn <=? length buf' then acc_cfg p (lg ++ [ODropped])
-                else rd_cfg (mk_chunk (skipn n (b :: bs)) rest) h w buf' p lg).
-      { unfold step_fixed, rd_cfg; cbn [st pending log]. fold n. fold buf'. unfold after_found.
-        destruct (has_term buf'); [reflexivity |]. destruct (BUFn <=? length buf'); reflexivity. }
+      assert (Hstep : step_fixed (rdB (RChunk b bs :: rest) h w buf p lg rb wr) =
+                if has_term buf' then after_foundB buf' h w p lg rb wr
+                else if BUFn <=? length buf' then accB p (lg ++ [ODropped]) rb wr
+                else rdB (mk_chunk (skipn n (b :: bs)) rest) h w buf' p lg rb wr).
+      { unfold step_fixed, rdB; cbn [st pending log rbuf wire]. fold n. fold buf'. unfold after_foundB.
+        destruct (has_term buf'); [| destruct (BUFn <=? length buf'); reflexivity].
+        destruct (starts_get buf'); reflexivity. }
       destruct (has_term buf') eqn:Hb.
       * split; [| exact Hb]. apply reaches_step. rewrite Hstep. apply reaches_refl.
       * destruct (BUFn <=? length buf') eqn:Hlen.
@@ -697,10 +714,10 @@ Proof.
            assert (Hfl : length (firstn n (b :: bs)) < n).
            { subst buf'. rewrite app_length in Hlen. subst n. lia. }
            destruct (skipn_nil_firstn _ _ Hfl) as [Hf Hs].
-           assert (Hstep' : step_fixed (rd_cfg (RChunk b bs :: rest) h w buf p lg)
-                            = rd_cfg rest h w buf' p lg).
+           assert (Hstep' : step_fixed (rdB (RChunk b bs :: rest) h w buf p lg rb wr)
+                            = rdB rest h w buf' p lg rb wr).
            { rewrite Hstep. rewrite Hs. reflexivity. }
-           specialize (IH buf' h w p lg Hb Hlen).
+           specialize (IH buf' h w p lg rb wr Hb Hlen).
            destruct (read_loop rest buf') as [fb | rs' sb |].
            ++ destruct IH as [IH1 IH2]. split; [| exact IH2].
               apply reaches_step. rewrite Hstep'. exact IH1.
@@ -718,56 +735,75 @@ Definition expected_fixed (c : conn) : cout :=
 Definition expected_fixed_item (i : item) : cout :=
   match i with Conn c => expected_fixed c | AcceptErr => ONone end.
 
-(** Every connection, whatever the client and the sockets do, is finished
-    within its step budget and the exporter is back at [accept]. *)
-Lemma conn_fixed c p lg :
-  reaches step_fixed (item_cost (Conn c)) (acc_cfg (Conn c :: p) lg)
-          (acc_cfg p (lg ++ [expected_fixed c]))
+(** The response buffer after a connection: the handler is called exactly for
+    complete GET requests (whether or not the client is still there). *)
+Definition rb_after (c : conn) (rb : list Z) : list Z :=
+  match kind_of c with
+  | KGet | KGetRst => hnd_out (c_hnd c)
+  | _ => rb
+  end.
+Definition rb_after_item (rb : list Z) (i : item) : list Z :=
+  match i with Conn c => rb_after c rb | AcceptErr => rb end.
+
+Lemma to_write_reply h : to_write (status_of h) (hnd_out h) = reply_bytes h.
+Proof. destruct h; reflexivity. Qed.
+
+(** Every connection, whatever the client and the sockets do and WHATEVER the
+    response buffer holds when it arrives, is finished within its step budget,
+    the exporter is back at [accept], and what went onto the wire is exactly
+    [wire_of c] - a function of this connection's script alone. *)
+Lemma conn_fixed c p lg rb wr :
+  reaches step_fixed (item_cost (Conn c)) (accB (Conn c :: p) lg rb wr)
+          (accB p (lg ++ [expected_fixed c]) (rb_after c rb) (wr ++ wire_of c))
   /\ (kind_of c = KGet ->
-      reaches step_fixed (1 + length (c_reads c)) (acc_cfg (Conn c :: p) lg)
-              (mkCfg (Responding (status_of (c_hnd c)) WOk) p lg)).
+      reaches step_fixed (1 + length (c_reads c)) (accB (Conn c :: p) lg rb wr)
+              (mkCfg (Responding (status_of (c_hnd c)) WOk) p lg (hnd_out (c_hnd c)) wr)).
 Proof.
   pose proof (kind_read c) as K.
-  pose proof (read_small_fixed (c_reads c) [] (c_hnd c) (c_wr c) p lg eq_refl BUFn_pos) as R.
-  unfold expected_fixed. cbn [item_cost].
+  pose proof (read_small_fixed (c_reads c) [] (c_hnd c) (c_wr c) p lg rb wr eq_refl BUFn_pos) as R.
+  unfold expected_fixed, rb_after, wire_of. cbn [item_cost].
   destruct (read_loop (c_reads c) []) as [b | rs' b |].
-  - destruct R as [R Hb]. rewrite (K Hb). unfold after_found in R.
+  - destruct R as [R Hb]. rewrite (K Hb). unfold after_foundB in R.
     destruct (starts_get b).
     + destruct (c_wr c) eqn:W.
       * split.
         -- replace (2 + length (c_reads c)) with ((1 + length (c_reads c)) + 1) by lia.
            eapply reaches_trans.
            ++ apply reaches_step. rewrite accept_step_fixed, W. exact R.
-           ++ apply reaches_step. cbn. apply reaches_refl.
+           ++ apply reaches_step. unfold step_fixed; cbn [st pending log rbuf wire].
+              rewrite to_write_reply. apply reaches_refl.
         -- intros _. apply reaches_step. rewrite accept_step_fixed, W. exact R.
       * split; [| discriminate].
         replace (2 + length (c_reads c)) with ((1 + length (c_reads c)) + 1) by lia.
         eapply reaches_trans.
         -- apply reaches_step. rewrite accept_step_fixed, W. exact R.
-        -- apply reaches_step. cbn. apply reaches_refl.
-    + split; [| discriminate].
+        -- apply reaches_step. unfold step_fixed; cbn [st pending log rbuf wire].
+           rewrite app_nil_r. apply reaches_refl.
+    + split; [| discriminate]. rewrite app_nil_r.
       eapply reaches_weaken; [| apply reaches_step; rewrite accept_step_fixed; exact R]. lia.
-  - assert (G : reaches step_fixed (2 + length (c_reads c)) (acc_cfg (Conn c :: p) lg)
-                  (acc_cfg p (lg ++ [ODropped]))).
+  - assert (G : reaches step_fixed (2 + length (c_reads c)) (accB (Conn c :: p) lg rb wr)
+                  (accB p (lg ++ [ODropped]) rb wr)).
     { apply reaches_step. rewrite accept_step_fixed. exact R. }
-    destruct K as [-> | ->]; (split; [exact G | discriminate]).
-  - rewrite K. split; [| discriminate]. apply reaches_step. rewrite accept_step_fixed. exact R.
+    destruct K as [-> | ->]; rewrite app_nil_r; (split; [exact G | discriminate]).
+  - rewrite K, app_nil_r. split; [| discriminate]. apply reaches_step. rewrite accept_step_fixed. exact R.
 Qed.
 
-Lemma fixed_run pre : forall p lg,
+Lemma fixed_run pre : forall p lg rb wr,
   no_accept_err pre = true ->
-  reaches step_fixed (bound pre) (acc_cfg (pre ++ p) lg)
-          (acc_cfg p (lg ++ map expected_fixed_item pre)).
+  reaches step_fixed (bound pre) (accB (pre ++ p) lg rb wr)
+          (accB p (lg ++ map expected_fixed_item pre) (fold_left rb_after_item pre rb)
+                (wr ++ expected_wire pre)).
 Proof.
-  induction pre as [| i pre IH]; intros p lg N.
-  - cbn. rewrite app_nil_r. apply reaches_refl.
+  induction pre as [| i pre IH]; intros p lg rb wr N.
+  - cbn. rewrite !app_nil_r. apply reaches_refl.
   - cbn [no_accept_err forallb] in N. destruct i as [c |]; [| discriminate]. cbn [andb] in N.
-    cbn [bound app map expected_fixed_item].
+    unfold expected_wire.
+    cbn [bound app map expected_fixed_item fold_left rb_after_item flat_map wire_of_item].
     eapply reaches_trans; [apply conn_fixed |].
     replace (lg ++ expected_fixed c :: map expected_fixed_item pre)
       with ((lg ++ [expected_fixed c]) ++ map expected_fixed_item pre)
       by (rewrite <- app_assoc; reflexivity).
-    apply IH. exact N.
+    rewrite (app_assoc wr). apply IH. exact N.
 Qed.
 
 Lemma exited_stays_fixed s : st s = Exited -> forall k, st (iter k step_fixed s) = Exited.
@@ -776,52 +812,77 @@ Proof.
   apply IHk. unfold step_fixed. rewrite H. exact H.
 Qed.
 
+Lemma fixed_final items :
+  no_accept_err items = true ->
+  iter (bound items) step_fixed (init items)
+  = accB [] (map expected_fixed_item items) (fold_left rb_after_item items []) (expected_wire items).
+Proof.
+  intros N. pose proof (fixed_run items [] [] [] [] N) as R. rewrite app_nil_r in R. cbn [app] in R.
+  unfold init. change (mkCfg Accepting items [] [] []) with (accB items [] [] []).
+  apply (reaches_fix step_fixed _ _ _ R); [reflexivity | apply le_n].
+Qed.
+
 Lemma fixed_all_run items :
   no_accept_err items = true ->
   run_with step_fixed items = (map expected_fixed_item items, FIdle).
 Proof.
-  intros N. pose proof (fixed_run items [] [] N) as R. rewrite app_nil_r in R. cbn [app] in R.
-  unfold run_with. unfold init. change (mkCfg Accepting items []) with (acc_cfg items []).
-  assert (F : step_fixed (acc_cfg [] (map expected_fixed_item items))
-              = acc_cfg [] (map expected_fixed_item items)) by reflexivity.
-  rewrite (reaches_fix step_fixed _ _ _ R F _ (le_n _)).
-  unfold acc_cfg, final_of, pad_log; cbn [st pending log].
+  intros N. unfold run_with. rewrite (fixed_final items N).
+  unfold accB, final_of, pad_log; cbn [st pending log].
   rewrite map_length. replace (length items - length items) with 0 by lia. cbn [repeat].
   rewrite app_nil_r. reflexivity.
 Qed.
 
+(** WHAT REACHES THE CLIENTS, for every list of connection scripts: exactly one
+    byte string per well-formed GET whose client is still there - the response
+    the handler formatted for THAT request's observation (or the constant 500
+    response) - and nothing else; in particular nothing an earlier request left
+    in the buffer (after a failed write, a failed handler, a dropped request). *)
+Theorem wire_fresh_fixed : forall items,
+  no_accept_err items = true -> run_wire_with step_fixed items = expected_wire items.
+Proof. intros items N. unfold run_wire_with. rewrite (fixed_final items N). reflexivity. Qed.
+
 (** UNRESTRICTED [serves_next] for the repaired loop: after ANY finite list of
     connection scripts (any chunking, premature close, oversize, reset, write
-    error, any handler outcome) a well-formed request is being answered within
-    the step_before_fix budget; the process never exits. *)
+    error on the 200 or the 500 path, any handler outcome) a well-formed request
+    is being answered within the step budget - with a buffer that holds exactly
+    what the handler produced for THIS request -; the process never exits; the
+    bytes the client receives are [reply_bytes (c_hnd last)], whatever [pre] was. *)
 Theorem serves_next_fixed : forall pre last,
   no_accept_err pre = true -> wellformed_get last = true ->
   let items := pre ++ [Conn last] in
   (exists n, n <= bound items /\
      iter n step_fixed (init items)
-     = mkCfg (Responding (status_of (c_hnd last)) WOk) [] (map expected_fixed_item pre))
+     = mkCfg (Responding (status_of (c_hnd last)) WOk) [] (map expected_fixed_item pre)
+             (hnd_out (c_hnd last)) (expected_wire pre))
   /\ (forall m, st (iter m step_fixed (init items)) <> Exited)
   /\ run_with step_fixed items
-     = (map expected_fixed_item pre ++ [OStatus (status_of (c_hnd last))], FIdle).
+     = (map expected_fixed_item pre ++ [OStatus (status_of (c_hnd last))], FIdle)
+  /\ run_wire_with step_fixed items = expected_wire pre ++ [reply_bytes (c_hnd last)].
 Proof.
   intros pre last N W items. unfold wellformed_get in W.
   assert (K : kind_of last = KGet) by (destruct (kind_of last); try discriminate; reflexivity).
-  pose proof (fixed_run pre [Conn last] [] N) as R1. cbn [app] in R1.
-  destruct (conn_fixed last [] (map expected_fixed_item pre)) as [R3 R2]. specialize (R2 K).
+  pose proof (fixed_run pre [Conn last] [] [] [] N) as R1. cbn [app] in R1.
+  set (rb := fold_left rb_after_item pre []) in *.
+  destruct (conn_fixed last [] (map expected_fixed_item pre) rb (expected_wire pre)) as [R3 R2].
+  specialize (R2 K).
   assert (R : reaches step_fixed (bound pre + (1 + length (c_reads last))) (init items)
-               (mkCfg (Responding (status_of (c_hnd last)) WOk) [] (map expected_fixed_item pre))).
+               (mkCfg (Responding (status_of (c_hnd last)) WOk) [] (map expected_fixed_item pre)
+                      (hnd_out (c_hnd last)) (expected_wire pre))).
   { eapply reaches_trans; [exact R1 | exact R2]. }
   assert (Hb : bound items = bound pre + (2 + length (c_reads last))).
   { unfold items. rewrite bound_app. cbn [bound item_cost]. lia. }
   assert (Ex : expected_fixed last = OStatus (status_of (c_hnd last))).
   { unfold expected_fixed. rewrite K. reflexivity. }
-  set (A := acc_cfg [] (map expected_fixed_item pre ++ [OStatus (status_of (c_hnd last))])).
+  assert (Ew : wire_of last = [reply_bytes (c_hnd last)]).
+  { unfold wire_of. rewrite K. reflexivity. }
+  set (A := accB [] (map expected_fixed_item pre ++ [OStatus (status_of (c_hnd last))])
+                 (rb_after last rb) (expected_wire pre ++ [reply_bytes (c_hnd last)])).
   assert (RA : reaches step_fixed (bound items) (init items) A).
   { rewrite Hb. replace (bound pre + (2 + length (c_reads last)))
-      with ((bound pre + (1 + length (c_reads last))) + 1) by lia.
-    eapply reaches_trans; [exact R |]. apply reaches_step. cbn. apply reaches_refl. }
+      with (bound pre + item_cost (Conn last)) by (cbn [item_cost]; lia).
+    unfold A. rewrite <- Ex, <- Ew. eapply reaches_trans; [exact R1 | exact R3]. }
   assert (FA : step_fixed A = A) by reflexivity.
-  split; [| split].
+  split; [| split; [| split]].
   - destruct R as (n & Hn & E). exists n. split; [lia | exact E].
   - intros m. destruct RA as (n & Hn & E).
     destruct (Nat.le_gt_cases m n) as [Hm | Hm].
@@ -831,10 +892,24 @@ Proof.
     + replace m with (n + (m - n)) by lia. rewrite iter_add, E.
       rewrite iter_fix by exact FA. discriminate.
   - unfold run_with. rewrite (reaches_fix step_fixed _ _ _ RA FA _ (le_n _)).
-    unfold A, acc_cfg, final_of, pad_log; cbn [st pending log].
+    unfold A, accB, final_of, pad_log; cbn [st pending log].
     unfold items. rewrite !app_length, map_length. cbn [length].
     replace (length pre + 1 - (length pre + 1)) with 0 by lia. cbn [repeat].
     rewrite app_nil_r. reflexivity.
+  - unfold run_wire_with. rewrite (reaches_fix step_fixed _ _ _ RA FA _ (le_n _)). reflexivity.
+Qed.
+
+(** The reply to a request is a function of that request's script alone: two
+    arbitrary histories lead to the same bytes for the same final request. *)
+Theorem reply_independent_of_history_fixed : forall pre pre' last,
+  no_accept_err pre = true -> no_accept_err pre' = true -> wellformed_get last = true ->
+  List.last (run_wire_with step_fixed (pre ++ [Conn last])) [] = reply_bytes (c_hnd last)
+  /\ List.last (run_wire_with step_fixed (pre' ++ [Conn last])) [] = reply_bytes (c_hnd last).
+Proof.
+  intros pre pre' lst N N' W.
+  destruct (serves_next_fixed pre lst N W) as (_ & _ & _ & E).
+  destruct (serves_next_fixed pre' lst N' W) as (_ & _ & _ & E').
+  rewrite E, E', !last_last. split; reflexivity.
 Qed.
 
 Lemma ok_expected_fixed c : ok_conn c (norm (Conn c) (expected_fixed c)) = true.
@@ -869,43 +944,104 @@ Theorem serves_next_impl : forall pre last,
   let items := pre ++ [Conn last] in
   (exists n, n <= bound items /\
      iter n step_impl (init items)
-     = mkCfg (Responding (status_of (c_hnd last)) WOk) [] (map expected_fixed_item pre))
+     = mkCfg (Responding (status_of (c_hnd last)) WOk) [] (map expected_fixed_item pre)
+             (hnd_out (c_hnd last)) (expected_wire pre))
   /\ (forall m, st (iter m step_impl (init items)) <> Exited)
-  /\ run items = (map expected_fixed_item pre ++ [OStatus (status_of (c_hnd last))], FIdle).
+  /\ run items = (map expected_fixed_item pre ++ [OStatus (status_of (c_hnd last))], FIdle)
+  /\ run_wire items = expected_wire pre ++ [reply_bytes (c_hnd last)].
 Proof. exact serves_next_fixed. Qed.
 
-Theorem accept_error_exits_impl : forall n p lg,
-  iter (S n) step_impl (acc_cfg (AcceptErr :: p) lg) = mkCfg Exited p lg.
+Theorem wire_fresh_impl : forall items,
+  no_accept_err items = true -> run_wire items = expected_wire items.
+Proof. exact wire_fresh_fixed. Qed.
+
+Theorem reply_independent_of_history_impl : forall pre pre' last,
+  no_accept_err pre = true -> no_accept_err pre' = true -> wellformed_get last = true ->
+  List.last (run_wire (pre ++ [Conn last])) [] = reply_bytes (c_hnd last)
+  /\ List.last (run_wire (pre' ++ [Conn last])) [] = reply_bytes (c_hnd last).
+Proof. exact reply_independent_of_history_fixed. Qed.
+
+Theorem accept_error_exits_impl : forall n p lg rb wr,
+  iter (S n) step_impl (accB (AcceptErr :: p) lg rb wr) = mkCfg Exited p lg rb wr.
 Proof.
-  intros. cbn [iter]. change (step_impl (acc_cfg (AcceptErr :: p) lg)) with (mkCfg Exited p lg).
+  intros. cbn [iter]. change (step_impl (accB (AcceptErr :: p) lg rb wr)) with (mkCfg Exited p lg rb wr).
   apply iter_fix. reflexivity.
 Qed.
 
 (** Witnesses that the pre-fix loop violated the statement (historic). *)
 Definition GET_BYTES : list Z :=
   [71; 69; 84; 32; 47; 32; 72; 84; 84; 80; 47; 49; 46; 49; 13; 10; 13; 10]%Z.
-Definition good_get : conn := mkConn (mk_chunk GET_BYTES []) HOk WOk false.
+Definition good_get : conn := mkConn (mk_chunk GET_BYTES []) (HOk [50%Z; 48%Z; 48%Z]) WOk false.
 
 Lemma serves_next_refuted_eof :
-  run_with step_before_fix [Conn (mkConn [REof] HOk WOk false); Conn good_get] = ([ONone; ONone], FSpin).
+  run_with step_before_fix [Conn (mkConn [REof] (HOk []) WOk false); Conn good_get] = ([ONone; ONone], FSpin).
 Proof. vm_compute. reflexivity. Qed.
 
 Lemma serves_next_refuted_oversize :
-  run_with step_before_fix [Conn (mkConn [RChunk 65 (repeat 65%Z 2999)] HOk WOk false); Conn good_get]
+  run_with step_before_fix [Conn (mkConn [RChunk 65 (repeat 65%Z 2999)] (HOk []) WOk false); Conn good_get]
   = ([ONone; ONone], FSpin).
 Proof. vm_compute. reflexivity. Qed.
 
 Lemma serves_next_refuted_reset :
-  run_with step_before_fix [Conn (mkConn [RChunk 71 [69%Z]; RErr] HOk WOk true); Conn good_get]
+  run_with step_before_fix [Conn (mkConn [RChunk 71 [69%Z]; RErr] (HOk []) WOk true); Conn good_get]
   = ([ONone; ONone], FExit).
 Proof. vm_compute. reflexivity. Qed.
 
+(** Hostile clients, a failing handler that left half a response in the buffer,
+    write errors on the 200 AND on the 500 path, then a well-formed GET: every
+    client is treated as the property demands and the wire carries exactly the
+    500 response and the last request's own response. *)
+Definition hostile_pre : list item :=
+  [Conn (mkConn [REof] (HOk []) WOk false);
+   Conn (mkConn [RChunk 65 (repeat 65%Z 2999)] (HOk []) WOk false);
+   Conn (mkConn [RChunk 71 [69%Z]; RErr] (HOk []) WOk true);
+   Conn (mkConn (mk_chunk GET_BYTES []) (HErr [1%Z; 2%Z]) WOk false);
+   Conn (mkConn (mk_chunk GET_BYTES []) (HOk [3%Z; 4%Z; 5%Z]) WErr true);
+   Conn (mkConn (mk_chunk GET_BYTES []) (HErr [6%Z]) WErr true)].
+
 Lemma serves_next_fixed_witness :
-  run_with step_fixed [Conn (mkConn [REof] HOk WOk false);
-                       Conn (mkConn [RChunk 65 (repeat 65%Z 2999)] HOk WOk false);
-                       Conn (mkConn [RChunk 71 [69%Z]; RErr] HOk WOk true);
-                       Conn (mkConn (mk_chunk GET_BYTES []) HErr WOk false);
-                       Conn (mkConn (mk_chunk GET_BYTES []) HOk WErr true);
-                       Conn good_get]
-  = ([ODropped; ODropped; ODropped; OStatus 500; ODropped; OStatus 200], FIdle).
-Proof. vm_compute. reflexivity. Qed.
+  run_with step_fixed (hostile_pre ++ [Conn good_get])
+  = ([ODropped; ODropped; ODropped; OStatus 500; ODropped; ODropped; OStatus 200], FIdle)
+  /\ run_wire_with step_fixed (hostile_pre ++ [Conn good_get]) = [ERR_BYTES; [50; 48; 48]%Z].
+Proof. vm_compute. split; reflexivity. Qed.
+
+(** Two faults at once (the handler fails AND the client has reset, so writing
+    the 500 response fails), then the same on the 200 path: both survived. *)
+Theorem write_errors_survived : forall o e lst,
+  wellformed_get lst = true ->
+  run [Conn (mkConn (mk_chunk GET_BYTES []) (HErr e) WErr true);
+       Conn (mkConn (mk_chunk GET_BYTES []) (HOk o) WErr true); Conn lst]
+  = ([ODropped; ODropped; OStatus (status_of (c_hnd lst))], FIdle).
+Proof.
+  intros o e lst W.
+  destruct (serves_next_impl
+              [Conn (mkConn (mk_chunk GET_BYTES []) (HErr e) WErr true);
+               Conn (mkConn (mk_chunk GET_BYTES []) (HOk o) WErr true)] lst eq_refl W)
+    as (_ & _ & E & _).
+  exact E.
+Qed.
+
+(** * The counterfactual "clear after a successful write" is told apart
+
+    For ALL handler outputs o1, o2: a client that resets while its response is
+    pending (write error), followed by a well-formed GET.  The code as it is
+    delivers [o2]; the counterfactual loop delivers the stale [o1] followed by
+    [o2] - while the status codes and the final state are the same. *)
+Definition reset_then_get (o1 o2 : list Z) : list item :=
+  [Conn (mkConn (mk_chunk GET_BYTES []) (HOk o1) WErr true);
+   Conn (mkConn (mk_chunk GET_BYTES []) (HOk o2) WOk false)].
+
+Theorem clear_after_write_refuted : forall o1 o2,
+  run_wire_with step_clear_after_write (reset_then_get o1 o2) = [o1 ++ o2]
+  /\ run_wire_with step_fixed (reset_then_get o1 o2) = [o2]
+  /\ expected_wire (reset_then_get o1 o2) = [o2]
+  /\ run_with step_clear_after_write (reset_then_get o1 o2) = run_with step_fixed (reset_then_get o1 o2).
+Proof. intros o1 o2. repeat split; reflexivity. Qed.
+
+(** ... and it heals itself with the next successful write, which is why no
+    status-code or liveness observation can see it. *)
+Theorem clear_after_write_self_heals : forall o1 o2 o3,
+  run_wire_with step_clear_after_write
+    (reset_then_get o1 o2 ++ [Conn (mkConn (mk_chunk GET_BYTES []) (HOk o3) WOk false)])
+  = [o1 ++ o2; o3].
+Proof. intros. reflexivity. Qed.
